@@ -67,5 +67,9 @@ theorem gen_fallbackGuard (P : Nat → Pt) (axis : Nat) (pv : Rat) (idx : List N
     rw [Bool.eq_iff_iff]
     simp [List.isEmpty_iff, List.filter_eq_nil_iff, List.any_eq_true]
   rw [e1, e2]
+  -- accept the guard of the source in either operand order (`rw` closes the goal by `rfl` when the order is the model's)
+  try (generalize idx.all (fun i => decide (coord (P i) axis ≤ pv)) = a
+       generalize idx.any (fun i => decide (coord (P i) axis ≤ pv)) = b
+       cases a <;> cases b <;> rfl)
 
 end Mouette.Props.C11G
